@@ -304,11 +304,11 @@ Section Term.
         intros v Hv. now constructor.
     Qed.
 
-    Lemma tm_seq_n t n m : tmr r (ShB A t) m -> tmr r (ShL A t) (seq_n n m).
+    Lemma tm_seq_n t n m : tmr r (ShB A t) m -> tmr r (fun l => ShL A t l /\ List.length l = n) (seq_n n m).
     Proof.
-      intros Hm. induction n as [|n IH]; cbn [seq_n]; [apply tmr_ret; constructor|].
-      eapply tmr_bind; [exact Hm|]. intros x Hx. eapply tmr_bind; [exact IH|]. intros xs Hxs.
-      apply tmr_ret. now constructor.
+      intros Hm. induction n as [|n IH]; cbn [seq_n]; [apply tmr_ret; split; [constructor|reflexivity]|].
+      eapply tmr_bind; [exact Hm|]. intros x Hx. eapply tmr_bind; [exact IH|]. intros xs [Hxs Hlen].
+      apply tmr_ret. split; [now constructor|cbn; now rewrite Hlen].
     Qed.
 
     Definition elem_pos (m : string) : Prop := forall v w, ShN A m v -> wsz md v = Some w -> 4 <= w.
@@ -323,24 +323,26 @@ Section Term.
       - eapply tmr_impl; [|eapply tm_basic; [eassumption|eassumption|]].
         + intros v Hv0. now constructor.
         + intros m ->. apply Hd. cbn. now left.
-      - destruct (resolve_size A s true) as [n| |]; cbn [ebind] in He; try discriminate.
+      - destruct (resolve_size A s true) as [n| |] eqn:Ers; cbn [ebind] in He; try discriminate.
         unfold decode_fixed in He. destruct Hpos0 as [_ [_ [Hts _]]].
         assert (Hcase : t = Opaque \/ t <> Opaque) by (destruct t; (now left) || (right; discriminate)).
         destruct Hcase as [->|Hno].
-        + inversion He; subst e. cbn [eval_dexp]. eapply tmr_bind; [apply tmr_prim; [apply safe_read_bytes|apply mono_read_bytes]|].
-          intros w _. apply tmr_ret. apply SP_fixed_opaque.
+        + inversion He; subst e. cbn [eval_dexp]. eapply tmr_bind; [apply tmr_prim; [apply safe_read_bytes_len|apply mono_read_bytes]|].
+          intros w Hw. apply tmr_ret. apply SP_fixed_opaque. intros n0 E0. rewrite Ers in E0. inversion E0; subst. exact Hw.
         + assert (He' : (if n =? 0 then EOk (EArr 0 (EPrim PU32))
                          else ebind (decode_basic A t UseAlias) (fun e0 => EOk (EArr n e0))) = EOk e).
           { destruct t; try exact He; congruence. }
-          clear He. destruct (n =? 0).
+          clear He. destruct (n =? 0) eqn:En0.
           * inversion He'; subst e. cbn [eval_dexp]. change (N.to_nat 0) with 0%nat. cbn [seq_n].
-            eapply (tmr_bind _ (ShL A t)); [apply tmr_ret; apply SL_nil|]. intros l Hl. apply tmr_ret.
-            apply SP_fixed; assumption.
+            eapply (tmr_bind _ (fun l => l = [])); [apply tmr_ret; reflexivity|]. intros l ->. apply tmr_ret.
+            apply SP_fixed; [assumption|apply SL_nil|]. intros n0 E0. rewrite Ers in E0. inversion E0; subst.
+            apply N.eqb_eq in En0. subst. reflexivity.
           * destruct (decode_basic A t UseAlias) as [e0| |] eqn:E0; cbn [ebind] in He'; try discriminate.
             inversion He'; subst e. cbn [eval_dexp].
             eapply tmr_bind; [apply tm_seq_n; eapply tm_basic; [eassumption|eassumption|]|].
             -- intros m ->. apply Hd. cbn. now left.
-            -- intros l Hl. apply tmr_ret. apply SP_fixed; assumption.
+            -- intros l [Hl Hlen]. apply tmr_ret. apply SP_fixed; [assumption|assumption|].
+               intros n0 E1. rewrite Ers in E1. inversion E1; subst. rewrite Hlen. apply N2Nat.id.
       - destruct Hpos0 as [Hsafe [_ [[Ht|[Ht|[m Ht]]] _]]]; subst t.
         + assert (Hx : exists mx, e = EVarBytes mx).
           { destruct s as [sz|]; [destruct (resolve_size A sz false); cbn [ebind] in He; try discriminate|];
@@ -638,16 +640,20 @@ Section Pos.
   Definition basic_posb (rec : string -> bool) (t : basic_type) : bool :=
     match t with Opaque => false | Ident m => rec m | _ => true end.
 
-  (* a position whose size is at least a word whatever the value: not inline opaque data (its
-     wire_size() is the payload length, finding F1), not a fixed array (the shape of a decoded
-     value does not record its length) *)
+  (* a position that occupies at least a word whatever the value: not inline variable-length
+     opaque data (its wire_size() is the payload length, finding F1); fixed-length ones when
+     the declared length is at least 1 *)
+  Definition size_pos (s : array_size) : bool :=
+    match resolve_size A s true with EOk n => 1 <=? n | _ => false end.
+
   Definition pos_posb (rec : string -> bool) (a : array_type) (opt : bool) : bool :=
     if opt then true else
     match a with
     | ANone t => basic_posb rec t
     | AVar Opaque _ => false
     | AVar _ _ => true
-    | AFixed _ _ => false
+    | AFixed Opaque s => size_pos s
+    | AFixed t s => size_pos s && basic_posb rec t
     end.
 
   Fixpoint posb (fuel : nat) (n : string) : bool :=
@@ -670,24 +676,54 @@ Section Pos.
   Lemma wsz_string_ge4 b : 4 <= wsz_string b.
   Proof. unfold wsz_string. lia. Qed.
 
+  Lemma basic_ge (rec : string -> bool) :
+    (forall n v w, rec n = true -> ShN A n v -> wsz md v = Some w -> 4 <= w) ->
+    forall t v w, basic_posb rec t = true -> ShB A t v -> wsz md v = Some w -> 4 <= w.
+  Proof.
+    intros Hrec t v w Hp HB Hw. inversion HB; subst; cbn [basic_posb wsz] in *;
+      try (inversion Hw; subst; lia); try discriminate.
+    - inversion Hw. apply wsz_string_ge4.
+    - eapply Hrec; eassumption.
+  Qed.
+
   Lemma pos_ge (rec : string -> bool) :
     (forall n v w, rec n = true -> ShN A n v -> wsz md v = Some w -> 4 <= w) ->
-    forall a opt v w, pos_posb rec a opt = true -> ShP A a opt v -> wsz md v = Some w -> 4 <= w.
+    forall a opt v w, pos_posb rec a opt = true -> ShP A a opt v -> wsz md v = Some w ->
+                      4 <= padded (contains_opaque a) w.
   Proof.
     intros Hrec a opt v w Hp Hs Hw. unfold pos_posb in Hp.
+    assert (Hle : forall b, 4 <= w -> 4 <= padded b w) by (intros b Hb; unfold padded; destruct b; lia).
     inversion Hs; subst; cbn [wsz] in Hw.
-    - (* plain *)
-      match goal with HB : ShB A _ _ |- _ => inversion HB; subst end; cbn [basic_posb wsz] in *;
-        try (inversion Hw; subst; lia); try discriminate.
-      + inversion Hw. apply wsz_string_ge4.
-      + eapply Hrec; eassumption.
-    - inversion Hw. unfold wsz_opt. lia.
-    - destruct (wsz md y); cbn [option_map] in Hw; inversion Hw. unfold wsz_opt. lia.
+    - (* plain *) apply Hle. eapply basic_ge; eassumption.
+    - apply Hle. inversion Hw. unfold wsz_opt. lia.
+    - apply Hle. destruct (wsz md y); cbn [option_map] in Hw; inversion Hw. unfold wsz_opt. lia.
+    - (* fixed opaque: the padded payload *)
+      unfold size_pos in Hp. destruct (resolve_size A s true) as [n| |] eqn:Ers; try discriminate.
+      apply N.leb_le in Hp.
+      match goal with HL : forall n0, _ = EOk n0 -> len (vdata _) = n0 |- _ => pose proof (HL n eq_refl) as Hlen end.
+      inversion Hw; subst w. unfold contains_opaque, padded, wsz_bytes. cbn [unwrap_array is_opaque].
+      rewrite Hlen. pose proof (pad_length_spec n) as [_ Hm].
+      assert (4 <= n + pad_length n \/ n + pad_length n = 0) as [X|X]; [|exact X|lia].
+      destruct (N.eq_dec (n + pad_length n) 0); [now right|left].
+      assert ((n + pad_length n) / 4 * 4 = n + pad_length n).
+      { pose proof (N.div_mod (n + pad_length n) 4 ltac:(lia)). lia. }
+      assert (1 <= (n + pad_length n) / 4) by (destruct ((n + pad_length n) / 4) eqn:Eq; lia). lia.
+    - (* fixed array of positive elements, at least one of them *)
+      apply Hle.
+      assert (Ho : t <> Opaque) by assumption.
+      assert (Hp' : size_pos s = true /\ basic_posb rec t = true).
+      { destruct t; try (apply Bool.andb_true_iff in Hp; exact Hp). congruence. }
+      destruct Hp' as [Hsz Hb]. unfold size_pos in Hsz.
+      destruct (resolve_size A s true) as [n| |] eqn:Ers; try discriminate. apply N.leb_le in Hsz.
+      match goal with HL : forall n0, _ = EOk n0 -> N.of_nat (List.length l) = n0 |- _ => pose proof (HL n eq_refl) as Hlen end.
+      destruct l as [|x l]; [cbn in Hlen; lia|].
+      match goal with HS : ShL A t (x :: l) |- _ => inversion HS; subst end.
+      cbn [map sum_opt] in Hw. destruct (wsz md x) as [wx|] eqn:Ex; [|discriminate].
+      destruct (sum_opt (map (wsz md) l)) as [y|]; cbn [option_map] in Hw; [|discriminate].
+      inversion Hw. pose proof (basic_ge rec Hrec t x wx Hb ltac:(assumption) Ex). unfold wsz_slice. lia.
     - discriminate.
-    - discriminate.
-    - discriminate.
-    - inversion Hw. apply wsz_string_ge4.
-    - destruct (sum_opt (map (wsz md) l)); cbn [option_map] in Hw; inversion Hw. unfold wsz_vec. lia.
+    - apply Hle. inversion Hw. apply wsz_string_ge4.
+    - apply Hle. destruct (sum_opt (map (wsz md) l)); cbn [option_map] in Hw; inversion Hw. unfold wsz_vec. lia.
   Qed.
 
   Lemma fields_ge (rec : string -> bool) :
@@ -702,7 +738,7 @@ Section Pos.
     destruct (wsz md v) as [wv|] eqn:Ev; [|discriminate].
     destruct (zip_sizes _ (map (wsz md) vs)) as [wr|] eqn:Er; cbn [option_map] in Hz; [|discriminate].
     inversion Hz; subst w. apply Bool.orb_true_iff in He as [He|He].
-    - pose proof (pos_ge rec Hrec _ _ _ _ He Hv Ev). unfold padded. destruct (contains_opaque (sf_value f)); lia.
+    - pose proof (pos_ge rec Hrec _ _ _ _ He Hv Ev). lia.
     - specialize (IH wr He eq_refl). lia.
   Qed.
 
@@ -735,7 +771,10 @@ Section Pos.
       apply Bool.orb_true_iff in Hp as [Hp|Hp].
       + apply Bool.andb_true_iff in Hp as [Ho Hal]. rewrite Ho.
         destruct (td_alias t); try discriminate; lia.
-      + match goal with HP : ShP A _ false y |- _ => pose proof (pos_ge (posb f) IH _ _ _ _ Hp HP Ey) end.
+      + match goal with HP : ShP A _ false y |- _ => pose proof (pos_ge (posb f) IH _ _ _ _ Hp HP Ey) as Hge end.
+        assert (Hco : contains_opaque (typedef_pos t) = is_opaque (td_target t))
+          by (unfold typedef_pos, contains_opaque; destruct (td_alias t); reflexivity).
+        rewrite Hco in Hge. unfold padded in Hge.
         destruct (is_opaque (td_target t)); [destruct (td_alias t)|]; lia.
   Qed.
 
